@@ -6,6 +6,7 @@ pub mod exec_common;
 pub mod c01;
 pub mod c02;
 pub mod c03;
+pub mod c04;
 pub mod c05;
 pub mod c07;
 pub mod c08;
@@ -22,7 +23,7 @@ pub mod c19;
 
 pub fn all() -> Vec<&'static Spec> {
     vec![
-        &c01::SPEC, &c02::SPEC, &c03::SPEC, &c05::SPEC, &c07::SPEC, &c08::SPEC, &c09::SPEC, &c10::SPEC, &c11::SPEC, &c12::SPEC, &c13::SPEC,
+        &c01::SPEC, &c02::SPEC, &c03::SPEC, &c04::SPEC, &c05::SPEC, &c07::SPEC, &c08::SPEC, &c09::SPEC, &c10::SPEC, &c11::SPEC, &c12::SPEC, &c13::SPEC,
         &c14::SPEC, &c16::SPEC, &c17::SPEC, &c18::SPEC, &c19::SPEC,
     ]
 }
